@@ -56,6 +56,12 @@ type Descriptor struct {
 	// As interfaces (including this one): they are produced by one construction
 	aliases []*Descriptor
 
+	// outputs lists every descriptor created by one registration whose constructor
+	// yields several services (result-object fields or several return values);
+	// resultField names the result-object field this descriptor stands for
+	outputs     []*Descriptor
+	resultField string
+
 	// Analysis results cached for performance
 	isFunc         bool
 	isResultObject bool
